@@ -394,7 +394,7 @@ Lemma kv_step_refines be st sp o :
   /\ snd (db_step be st o) = snd (spec_step sp o).
 Proof.
   intros Hkv Hinj R Hok. pose proof R as [Hb [[Hd Hl] Hm]].
-  destruct o as [k v|k|p|s|l|p lk|k|k]; cbn [op_ok] in Hok; try discriminate.
+  destruct o as [k v|k|p|s|l|p lk|k|k|k]; cbn [op_ok] in Hok; try discriminate.
   - (* Put *)
     assert (E : db_step be st (OPut k v) = kv_put (be_enc be) st k v) by (destruct be; [reflexivity|reflexivity|discriminate]).
     rewrite E. cbn [spec_step]. apply kv_put_refines; assumption.
@@ -493,7 +493,7 @@ Lemma sealed_step be st o :
   b_seal (d_base (fst (db_step be st o))) = true /\ b_lock (d_base (fst (db_step be st o))) = b_lock (d_base st)
   /\ (forall p lk, o = OSetLock p lk -> snd (db_step be st o) = DErr EGen).
 Proof.
-  intros H. destruct o as [k v|k|p|s|l|p lk|k|k]; cbn [db_step fst snd]; try (repeat split; auto; discriminate).
+  intros H. destruct o as [k v|k|p|s|l|p lk|k|k|k]; cbn [db_step fst snd]; try (repeat split; auto; discriminate).
   - assert (E : d_base (fst (match be with BMem => kv_put hex_enc st k v | BPg => kv_put (fun x => x) st k v
                                           | BFs bin => fs_put bin st k v end)) = d_base st).
     { destruct be as [| |bin]; unfold kv_put, fs_put, fs_write.
@@ -504,6 +504,7 @@ Proof.
         repeat match goal with |- context [if ?c then _ else _] => destruct c end; reflexivity. }
     rewrite E. repeat split; auto. discriminate.
   - unfold set_lock. rewrite H. cbn [fst snd with_base d_base]. repeat split; auto.
+  - destruct be as [| |bin]; cbn [fst snd with_base d_base set_language b_seal b_lock]; repeat split; auto; discriminate.
 Qed.
 
 Theorem seal_is_final_lemma : forall be ops st,
@@ -545,7 +546,7 @@ Qed.
 Lemma spec_step_base sp sp' o : sp_base sp = sp_base sp' ->
   sp_base (fst (spec_step sp o)) = sp_base (fst (spec_step sp' o)).
 Proof.
-  intros H. destruct o as [k v|k|p|s|l|p lk|k|k]; cbn [spec_step fst sp_base]; try (rewrite H; reflexivity); try exact H.
+  intros H. destruct o as [k v|k|p|s|l|p lk|k|k|k]; cbn [spec_step fst sp_base]; try (rewrite H; reflexivity); try exact H.
   - rewrite !spec_put_base. exact H.
   - rewrite H. destruct (set_lock (sp_base sp') p lk). reflexivity.
 Qed.
@@ -583,7 +584,7 @@ Qed.
 Lemma differ_step a0 sp sp' o : differ_at a0 sp sp' -> differ_at a0 (fst (spec_step sp o)) (fst (spec_step sp' o)).
 Proof.
   intros D. pose proof D as [Hb [m2 [ex [m1 [Hex [E1 E2]]]]]].
-  destruct o as [k v|k|p|s|l|p lk|k|k]; cbn [spec_step fst]; try exact D;
+  destruct o as [k v|k|p|s|l|p lk|k|k|k]; cbn [spec_step fst]; try exact D;
     try (split; [cbn [sp_base]; rewrite Hb; reflexivity|exists m2, ex, m1; auto]).
   - unfold spec_put. rewrite Hb.
     destruct (negb (check_put (sp_base sp'))); [exact D|].
@@ -984,7 +985,7 @@ Lemma fs_step_refines bin st sp o :
   /\ snd (db_step (BFs bin) st o) = snd (spec_step sp o).
 Proof.
   intros R Hok. pose proof R as [Hb [Hd [[Hdf Hl] [Hp [Hm Hf]]]]].
-  destruct o as [k v|k|p|s|l|p lk|k|k]; try (cbn [fs_op_ok] in Hok; discriminate).
+  destruct o as [k v|k|p|s|l|p lk|k|k|k]; try (cbn [fs_op_ok] in Hok; discriminate).
   - cbn [db_step spec_step]. apply fs_put_refines; assumption.
   - cbn [db_step spec_step fst snd]. split; [exact R|]. apply fs_get_refines; assumption.
   - cbn [fs_op_ok] in Hok. cbn [db_step spec_step fst snd]. split; [|reflexivity].
@@ -1488,7 +1489,7 @@ Proof.
   intros [R [Hmw [Hfw Hnd]]] Hok Hne.
   pose proof (fs_step_refines false st sp o R Hok) as [R' _].
   split; [exact R'|].
-  destruct o as [k v|k|p|s|l|p lk|k|k]; try (cbn [fs_op_ok] in Hok; discriminate);
+  destruct o as [k v|k|p|s|l|p lk|k|k|k]; try (cbn [fs_op_ok] in Hok; discriminate);
     try (cbn [db_step spec_step fst with_base d_store d_dir sp_map]; auto).
   - (* Put *)
     cbn [db_step spec_step]. destruct (fs_put_shape st sp k v R Hok) as [[E1 E2]|[W [A [C [E1 E2]]]]].
@@ -2005,3 +2006,199 @@ Theorem fs_refuted_dump_without_session :
     /\ fs_dump false (fs_state false ops) p = DDump [(s2b "b1", s2b "v1"); (s2b "x.a1", s2b "v2")]
     /\ spec_dump (ref_state ops) p = DDump [(s2b "b1", s2b "v1")].
 Proof. exists w_dump_nosess, []. vm_compute. repeat split. Qed.
+
+(* ================================================================================================== *)
+(* C11 for listings: what a Dump returns belongs to the current (type, session)                      *)
+(* ================================================================================================== *)
+(* ---- listings are confined to the current (type, session) ------------------------------------------------ *)
+(* mem / pg: every stored row is the entry of a well-formed key of the reference map *)
+Definition kv_rel2 (enc : bytes -> bytes) (st : dbstate) (sp : spec) : Prop :=
+  kv_rel enc st sp
+  /\ (forall p v, In (p, v) (d_store st) -> exists a, wf_akey a = true /\ p = enc (enc_a a))
+  /\ NoDup (map fst (d_store st)).
+
+Lemma kv_put_store enc st sp k v :
+  kv_rel enc st sp -> key_ok (sp_base sp) k = true ->
+  fst (kv_put enc st k v) = st
+  \/ exists a0, wf_akey a0 = true /\ fst (kv_put enc st k v) = with_store st (aset (enc (enc_a a0)) v (d_store st)).
+Proof.
+  intros [Hb [Hc Hm]] Hk. unfold kv_put. rewrite Hb, check_put_model.
+  destruct (check_put (sp_base sp)); cbn [negb]; [|left; reflexivity].
+  destruct (b_pfx (sp_base sp) =? DATATYPE_UNKNOWN) eqn:Hp.
+  - apply N.eqb_eq in Hp. unfold to_key. cbn [model_base b_pfx]. rewrite Hp.
+    change (DATATYPE_UNKNOWN =? DATATYPE_UNKNOWN) with true. left. reflexivity.
+  - apply N.eqb_neq in Hp. rewrite (to_key_model _ k Hp Hc). cbn [lk_translation lk_default fst].
+    destruct (ctx_akey_wf _ _ Hc Hk) as [Wd Wt]. right.
+    destruct (eff_lang (sp_base sp)) as [c|] eqn:El; cbn [option_map].
+    + exists (ctx_akey (sp_base sp) (Some c) k). split; [apply Wt; reflexivity|reflexivity].
+    + exists (ctx_akey (sp_base sp) None k). split; [exact Wd|reflexivity].
+Qed.
+
+Lemma kv_rel2_step be st sp o :
+  is_kv be = true -> (forall x y, be_enc be x = be_enc be y -> x = y) ->
+  kv_rel2 (be_enc be) st sp -> op_ok (sp_base sp) o = true ->
+  kv_rel2 (be_enc be) (fst (db_step be st o)) (fst (spec_step sp o)).
+Proof.
+  intros Hkv Hinj [R [Hw Hnd]] Hok.
+  destruct (kv_step_refines be st sp o Hkv Hinj R Hok) as [R' _]. split; [exact R'|].
+  destruct o as [k v|k|p|s|l|p lk|k|k|k]; cbn [op_ok] in Hok; try discriminate.
+  - assert (E : db_step be st (OPut k v) = kv_put (be_enc be) st k v) by (destruct be; [reflexivity|reflexivity|discriminate]).
+    rewrite E. destruct (kv_put_store (be_enc be) st sp k v R Hok) as [E1|[a0 [W0 E1]]]; rewrite E1; [auto|].
+    cbn [with_store d_store]. split.
+    + intros p w Hin. apply in_aset in Hin as [Ep|Hin]; [|apply Hw in Hin; exact Hin].
+      injection Ep as -> _. exists a0. auto.
+    + apply nodup_aset. exact Hnd.
+  - cbn [db_step fst]. auto.
+  - cbn [db_step fst with_base d_store]. auto.
+  - cbn [db_step fst with_base d_store]. auto.
+  - cbn [db_step fst with_base d_store]. auto.
+  - cbn [db_step]. destruct (set_lock (d_base st) p lk). cbn [fst with_base d_store]. auto.
+Qed.
+
+Lemma kv_rel2_run be : is_kv be = true -> (forall x y, be_enc be x = be_enc be y -> x = y) ->
+  forall ops st sp, kv_rel2 (be_enc be) st sp -> hist_ok sp ops = true ->
+  kv_rel2 (be_enc be) (fst (db_run be st ops)) (fst (spec_run sp ops)).
+Proof.
+  intros Hkv Hinj. induction ops as [|o ops IH]; intros st sp R Hok; [exact R|].
+  cbn [hist_ok] in Hok. apply andb_true_iff in Hok as [Ho Hr].
+  pose proof (kv_rel2_step be st sp o Hkv Hinj R Ho) as R'.
+  cbn [db_run spec_run]. destruct (db_step be st o) as [st' x]. destruct (spec_step sp o) as [sp' x'].
+  cbn [fst] in R', Hr. specialize (IH st' sp' R' Hr).
+  destruct (db_run be st' ops). destruct (spec_run sp' ops). exact IH.
+Qed.
+
+Lemma kv_rel2_init enc dir : kv_rel2 enc (db_init dir) spec_init.
+Proof. split; [apply kv_rel_init|]. split; [intros p v []|constructor]. Qed.
+
+(* the guard of the Postgres listing: a documented type (a sessioned type is then not
+   language-scoped, so no language suffix can imitate a session prefix) and a session id for the
+   sessioned types (without one the prefix "type byte + key" matches every session: K-C11-2) *)
+Definition pg_list_ok (sp : spec) : bool :=
+  let b := sp_base sp in
+  documented_type (b_pfx b)
+  && (if sessioned (b_pfx b) then negb (is_nil (b_sid b)) else true).
+
+Lemma ainsert_in {V} k (v : V) l x : In x (ainsert k v l) -> x = (k, v) \/ In x l.
+Proof.
+  induction l as [|[k' v'] l IH]; cbn [ainsert]; intros H.
+  - destruct H as [H|[]]. left. symmetry. exact H.
+  - destruct (bytes_leb k k').
+    + destruct H as [H|H]; [left; symmetry; exact H|right; exact H].
+    + destruct H as [H|H]; [right; left; exact H|]. destruct (IH H) as [H1|H1]; [left; exact H1|right; right; exact H1].
+Qed.
+Lemma asort_in {V} (l : list (bytes * V)) x : In x (asort l) -> In x l.
+Proof.
+  unfold asort. induction l as [|[k v] l IH]; cbn [fold_right]; [auto|]. intros H.
+  apply ainsert_in in H as [H|H]; [left; symmetry; exact H|right; apply IH; exact H].
+Qed.
+
+Lemma pg_rest_in b lo rows k v : In (k, v) (pg_dump_rest b lo rows) ->
+  exists rk, In (rk, v) rows /\ is_prefix lo rk = true.
+Proof.
+  induction rows as [|[rk w] rows IH]; cbn [pg_dump_rest]; [intros []|].
+  destruct (is_prefix lo rk) eqn:Ep; [|intros []].
+  destruct (decode_key b rk) as [kk|e|n] eqn:E; [|intros []|intros []].
+  intros [H|H].
+  - injection H as -> ->. exists rk. split; [left; reflexivity|exact Ep].
+  - destruct (IH H) as [rk' [H1 H2]]. exists rk'. split; [right; exact H1|exact H2].
+Qed.
+
+Lemma bytes_leb_head t x t' y : bytes_leb (t :: x) (t' :: y) = true -> t <= t'.
+Proof. cbn [bytes_leb]. destruct (t <? t') eqn:E1; [lia|]. destruct (t' <? t) eqn:E2; [discriminate|lia]. Qed.
+
+Lemma documented_sessioned_not_lang t : documented_type t = true -> sessioned t = true -> lang_type t = false.
+Proof. intros H Hs. apply documented_cases in H. destruct H as [H|[H|[H|[H|[H|H]]]]]; rewrite H in *; try discriminate; reflexivity. Qed.
+
+Theorem pg_listing_isolated_state st sp p l :
+  kv_rel2 (fun x => x) st sp -> pg_list_ok sp = true ->
+  snd (db_step BPg st (ODump p)) = DDump l ->
+  forall k v, In (k, v) l ->
+  exists a, same_space (sp_base sp) a = true /\ slookup a (sp_map sp) = Some v.
+Proof.
+  intros [[Hb [[Hdf _] Hm]] [Hw Hnd]] Hok Hd k v Hin.
+  unfold pg_list_ok in Hok. apply andb_true_iff in Hok as [Hdoc Hsid].
+  cbn [db_step snd] in Hd. unfold pg_dump in Hd.
+  set (b := set_language (d_base st) None) in *.
+  destruct (to_key b p) as [lk| |] eqn:Etk; try discriminate. cbv zeta in Hd.
+  (* every listed pair comes from a stored row that begins with the lower bound *)
+  assert (Hrow : exists rk, In (rk, v) (pg_rows_from st (lk_default lk)) /\ is_prefix (lk_default lk) rk = true).
+  { destruct (pg_rows_from st (lk_default lk)) as [|[rk0 v0] r] eqn:Er; [discriminate|].
+    destruct (is_prefix (lk_default lk) rk0) eqn:Ep0; cbn [negb] in Hd; [|discriminate].
+    destruct (decode_key b rk0) as [kk0| |] eqn:E0; try discriminate. injection Hd as <-.
+    destruct Hin as [H|H].
+    - injection H as -> ->. exists rk0. split; [left; reflexivity|exact Ep0].
+    - apply pg_rest_in in H as [rk [H1 H2]]. exists rk. split; [right; exact H1|exact H2]. }
+  destruct Hrow as [rk [Hr Hpre]]. unfold pg_rows_from in Hr. apply filter_In in Hr as [Hr _].
+  apply asort_in in Hr.
+  destruct (Hw _ _ Hr) as [a [Wa ->]].
+  assert (Hs : slookup a (sp_map sp) = Some v).
+  { rewrite <- (Hm a Wa). apply in_alookup_nodup; assumption. }
+  exists a. split; [|exact Hs].
+  (* the lower bound is the type byte followed by the session prefix and the requested key prefix *)
+  unfold to_key in Etk. destruct (b_pfx b =? DATATYPE_UNKNOWN); [discriminate|]. injection Etk as <-.
+  cbn [lk_default] in Hpre. unfold to_db_key in Hpre. cbn [lang_suffix] in Hpre. rewrite app_nil_r in Hpre.
+  rewrite enc_a_unfold in Hpre. cbn [is_prefix] in Hpre. apply andb_true_iff in Hpre as [Ht Hpre].
+  apply N.eqb_eq in Ht.
+  assert (Hp : b_pfx (d_base st) = b_pfx (sp_base sp)) by (rewrite Hb; reflexivity).
+  rewrite Hp in Ht, Hpre. symmetry in Ht.
+  unfold same_space. rewrite Ht, N.eqb_refl. cbn [andb]. apply obytes_eqb_eq.
+  pose proof Wa as Wa'. unfold wf_akey in Wa'. apply andb_true_iff in Wa' as [Ws Wl]. rewrite Ht in Ws, Wl.
+  destruct (sessioned (b_pfx (sp_base sp))) eqn:Ese.
+  - (* sessioned: the stored key begins with the session prefix "s." *)
+    pose proof (documented_sessioned_not_lang _ Hdoc Ese) as Hnl. rewrite Hnl in Wl.
+    destruct (a_lang a) eqn:El; [discriminate|]. cbn [lang_suffix] in Hpre. rewrite app_nil_r in Hpre.
+    unfold to_session_key in Hpre. rewrite Ese in Hpre.
+    assert (Hbs : b_sid b = sid_enc (b_sid (sp_base sp))) by (unfold b; rewrite Hb; reflexivity).
+    rewrite Hbs in Hpre. apply is_prefix_app_l in Hpre. apply negb_true_iff in Hsid.
+    destruct (b_sid (sp_base sp)) as [|c s] eqn:Esid; [discriminate|].
+    apply (session_prefix (c :: s) a); auto; [discriminate|rewrite Ht; exact Ese].
+  - destruct (a_sess a); [discriminate|reflexivity].
+Qed.
+
+Theorem pg_listing_isolated_partial_lemma : forall dir ops p l,
+  hist_ok spec_init ops = true ->
+  let st := fst (db_run BPg (db_init dir) ops) in
+  let sp := fst (spec_run spec_init ops) in
+  pg_list_ok sp = true ->
+  snd (db_step BPg st (ODump p)) = DDump l ->
+  forall k v, In (k, v) l -> exists a, same_space (sp_base sp) a = true /\ slookup a (sp_map sp) = Some v.
+Proof.
+  intros dir ops p l Hok st sp Hg Hd. apply (pg_listing_isolated_state st sp p l); [|exact Hg|exact Hd].
+  apply (kv_rel2_run BPg eq_refl); [intros x y E; exact E|apply kv_rel2_init|exact Hok].
+Qed.
+
+(* fs (text mode, guard dump_ok): the listing theorem already gives every listed pair as an entry of
+   the current (type, session) *)
+Theorem fs_listing_isolated_partial_lemma : forall dir ops p l,
+  dir_ok dir = true -> dir <> [] ->
+  fs_hist_ok false spec_init ops = true -> forallb put_key_nonempty ops = true ->
+  let st := fst (db_run (BFs false) (db_init dir) ops) in
+  let sp := fst (spec_run spec_init ops) in
+  dump_ok sp = true -> fs_dump false st p = DDump l ->
+  forall k v, In (k, v) l -> exists a, same_space (sp_base sp) a = true /\ slookup a (sp_map sp) = Some v.
+Proof.
+  intros dir ops p l Hd Hne Hok Hk st sp Hg E k v Hin.
+  pose proof (fs_dump_lists_prefix_partial_lemma dir ops p Hd Hne Hok Hk Hg) as H. fold st sp in H. rewrite E in H.
+  destruct H as [H _]. apply H in Hin as [_ Hs].
+  exists (ctx_akey (sp_base sp) None k). split; [apply same_space_ctx|exact Hs].
+Qed.
+
+(* a value is owned by the current (type, session) if some entry of that space holds it *)
+Definition owned (sp : spec) (v : bytes) : bool :=
+  existsb (fun e : akey * bytes => same_space (sp_base sp) (fst e) && bytes_eqb (snd e) v) (sp_map sp).
+Lemma owned_of_entry sp v a : same_space (sp_base sp) a = true -> slookup a (sp_map sp) = Some v -> owned sp v = true.
+Proof.
+  intros Hs Hl. unfold owned. apply existsb_exists. exists (a, v). split; [apply slookup_in; exact Hl|].
+  cbn [fst snd]. rewrite Hs, bytes_eqb_refl. reflexivity.
+Qed.
+
+(* regression (repaired K-C11-5): the Postgres listing of STATE used to run on into the USERDATA rows of
+   the same session id; with the prefix comparison it lists the STATE entry only *)
+Definition w_pg_dump : list dbop :=
+  [OSetPrefix DATATYPE_STATE; OSetSession (s2b "s"); OPut (s2b "a") (s2b "state-a");
+   OSetPrefix DATATYPE_USERDATA; OPut (s2b "u") (s2b "user-u"); OSetPrefix DATATYPE_STATE].
+Lemma pg_dump_cross_type_regression :
+  hist_ok spec_init w_pg_dump = true /\ pg_list_ok (ref_state w_pg_dump) = true
+  /\ snd (db_step BPg (fst (db_run BPg (db_init []) w_pg_dump)) (ODump [])) = DDump [(s2b "a", s2b "state-a")]
+  /\ owned (ref_state w_pg_dump) (s2b "state-a") = true /\ owned (ref_state w_pg_dump) (s2b "user-u") = false.
+Proof. vm_compute. repeat split. Qed.
